@@ -142,11 +142,21 @@ func (r *rdbdriver) findMapInSortedData(domain, mtype []byte, context Context) (
 			break
 		}
 
-		foundLabel := foundKey[prefixLen : len(foundKey)-1]
-		length := findCommonLongestPrefix(reversedZone, foundLabel)
-		if length == 0 {
+		// length of the name we have just looked up, including its terminating \0
+		nameLen := len(k) - prefixLen - len(suffix)
+		if nameLen == 1 {
+			// the root was the last candidate
 			break
 		}
+
+		foundLabel := foundKey[prefixLen : len(foundKey)-1]
+		length := findCommonLongestPrefix(reversedZone[:nameLen-1], foundLabel)
+		if length >= nameLen-1 {
+			// found key is for the same name (e.g. its wildcard map, which does not
+			// apply to the name itself): continue with the parent
+			length = getLengthWithoutLastLabel(reversedZone, nameLen) - 1
+		}
+		// length == 0 means only the root wildcard map is left to try
 
 		// k already has necessary data - we just need to cut it at proper point
 		k[prefixLen+length] = 0
